@@ -700,7 +700,7 @@ func (x *prioExec) progressProbe() {
 	before := x.res.Received
 	ok := x.await(prioL, func() bool { return x.res.Received > before })
 	x.res.Probes++
-	if !ok && !x.termSeen && !x.mon.faulted.Load() {
+	if !ok && !x.termSeen && !x.mon.applied.Load() {
 		x.fail("C06", "no-progress-idle", "nothing in flight, no release outstanding and an input holds undelivered data, but nothing was delivered within %s (virtual)", prioL)
 	}
 }
@@ -731,7 +731,7 @@ func (x *prioExec) aloneProbe(op POp) {
 	x.ctl.SetPhase("await-all-handlers-for-single-priority", "C06")
 	ok := x.await(prioL+time.Duration(n)*200*time.Nanosecond, func() bool { return len(x.held) >= int(x.sc.H) })
 	x.res.AloneProbes++
-	if !ok && !x.termSeen && !x.mon.faulted.Load() {
+	if !ok && !x.termSeen && !x.mon.applied.Load() {
 		x.fail("C06", "alone-not-granted-all", "priority %d alone has %d items and nothing is in flight, but only %d of %d handlers were occupied within the progress window (no release issued)", op.P, n, len(x.held), x.sc.H)
 	}
 }
@@ -827,7 +827,7 @@ func (x *prioExec) loneBurstProbe(op POp) {
 			if x.await(prioL, func() bool { return x.res.Received > before }) {
 				continue
 			}
-			if !x.termSeen && !x.mon.faulted.Load() {
+			if !x.termSeen && !x.mon.applied.Load() {
 				x.fail("C06", "lone-burst-stalled", "priority %d is alone in having data (an undelivered item is waiting) and alone in flight with %d of %d handlers, its share is %d and the %d vacant handlers can give every other priority one, but nothing more was delivered within %s (virtual) although no release is needed", op.P, k, H, x.shares[op.P], H-k, prioL)
 			}
 			return
@@ -845,7 +845,7 @@ func (x *prioExec) saturationCheckpoint() {
 	if !x.armed() {
 		return
 	}
-	if !ok && x.mon.faulted.Load() {
+	if !ok && x.mon.applied.Load() {
 		return
 	}
 	if !ok {
